@@ -16,6 +16,8 @@ import ApdVerif.Model.Decompose
 import ApdVerif.Lemmas.SqrtDefs
 import ApdVerif.Model.TransObs
 import ApdVerif.Oracle.ExpTapeOK
+import ApdVerif.Oracle.LnTapeOK
+import ApdVerif.Oracle.Log10TapeOK
 /-!
 # Model driver: reads harness lines on stdin, runs the model and the specification oracles,
 prints one line per problem and a summary.  Core Lean only (compiled as `lean_exe driver`).
@@ -249,6 +251,19 @@ def handleCtxOp (id : String) (t : List String) : Option (List String × Nat × 
         let x := (← parseDec xs).d
         if Apd.ExpTapeOK c x cp n then pure core
         else pure (core.1 ++ [s!"{id} MISMATCH tapeok model= the float64 decisions cp={cp} n={n} of this call fall outside ExpTapeOK, the hypothesis of C12_exp_accurate"], core.2.1 + 1, core.2.2)
+      | "ln", _ :: _ =>
+        -- Ln / Log10 that consult the tape: the recorded decisions must satisfy LnTapeOK / Log10TapeOK, the hypotheses
+        -- of C12_ln_accurate / C12_log10_accurate (the constants ln 10 and 1/ln 10 are certified to 95 digits only,
+        -- hence the precision guard)
+        let c ← parseCtx p emax emin traps mode
+        let x := (← parseDec xs).d
+        if c.prec + 4 > 90 || Apd.LnTapeOK c x tape then pure core
+        else pure (core.1 ++ [s!"{id} MISMATCH tapeok model= the recorded decisions of this Ln call fall outside LnTapeOK, the hypothesis of C12_ln_accurate"], core.2.1 + 1, core.2.2)
+      | "log10", _ :: _ =>
+        let c ← parseCtx p emax emin traps mode
+        let x := (← parseDec xs).d
+        if c.prec + 4 > 90 || Apd.Log10TapeOK c x tape then pure core
+        else pure (core.1 ++ [s!"{id} MISMATCH tapeok model= the recorded decisions of this Log10 call fall outside Log10TapeOK, the hypothesis of C12_log10_accurate"], core.2.1 + 1, core.2.2)
       | _, _ => pure core
   | [op, p, emax, emin, traps, mode, xs, ys, ia, "=>", ds, fls, errs, auxs] =>
     handleCtxOpCore id op p emax emin traps mode xs ys ia ds fls errs auxs none
@@ -963,6 +978,17 @@ def handleParse (id : String) (t : List String) : Option (List String × Nat × 
       if Apd.Spec.numericString l && pd.d.neg != (l.head? == some '-') then
         res := merge res (propfail id "C13" "the parsed value does not carry the written sign")
         res := merge res (propfail id "C06" "the sign of the parsed value is not the written one: it depends on the destination's previous contents")
+      -- a special value (Infinity, NaN, sNaN with an optional payload) written into a used destination: the fields
+      -- that carry no value for that form are what the string denotes (exponent 0, coefficient 0),
+      -- not leftovers of the destination's previous contents (C06; observable through CmpTotal and NaN propagation)
+      if Apd.Spec.numericString l && Apd.Spec.isSpecial l && pd.d.form != .finite then
+        -- (apd checks the digits of a NaN payload and does not store them: what the string denotes is what the model
+        -- of setString - proved against the grammar, C14_parse_accepts_iff / C13_setString_roundtrip - returns)
+        match model with
+        | some m =>
+          if pd.d.exp != m.d.exp || pd.d.coeff != m.d.coeff then
+            res := merge res (propfail id "C06" "a special value parsed into a used destination keeps the coefficient or exponent the destination held before")
+        | none => pure ()
       -- C07: the context-rounded result fits
       if (e == .none || e == .trap) && c.prec > 0 && !(fits c pd.d) then
         res := merge res (propfail id "C07" "parsed and rounded result does not fit the context")
